@@ -202,6 +202,21 @@ class Collector(object):
 
         return len(self.docset)
 
+    def tracks_docset(self):
+        """Returns True if ``all_ids()`` of this collector is the set of
+        documents that were passed to ``collect()`` (and not removed again).
+        """
+
+        return True
+
+    def with_base(self, base):
+        """Returns a copy of this collector in which the innermost (non-
+        wrapping) collector is replaced by ``base``. Used by wrapping
+        collectors to run the query again through an exhaustive collector.
+        """
+
+        return base
+
     def collect_matches(self):
         """This method calls :meth:`Collector.matches` and then for each
         matched document calls :meth:`Collector.collect`. Sub-classes that
@@ -459,6 +474,11 @@ class TopCollector(ScoredCollector):
                 and not self.top_searcher.weighting.use_final
                 and self.matcher.supports_block_quality())
 
+    def tracks_docset(self):
+        # all_ids() re-runs the query, it knows nothing about the documents
+        # a wrapping collector filtered out or removed
+        return False
+
     def computes_count(self):
         # self.total is only the number of matching documents if no
         # optimization could have made the matcher pass over some of them
@@ -639,8 +659,39 @@ class WrappingCollector(Collector):
     def context(self):
         return self.child.context
 
+    @property
+    def q(self):
+        return self.child.q
+
     def prepare(self, top_searcher, q, context):
         self.child.prepare(top_searcher, q, context)
+
+    def computes_count(self):
+        return self.child.computes_count()
+
+    def tracks_docset(self):
+        return self.child.tracks_docset()
+
+    def rewrap(self, child):
+        """Returns a new collector of this type, configured like this one,
+        around the given child collector.
+        """
+
+        raise NotImplementedError(self.__class__)
+
+    def with_base(self, base):
+        return self.rewrap(self.child.with_base(base))
+
+    def recount_ids(self):
+        """Returns the documents this stack of collectors lets through, found
+        by running the query again through the same wrapping collectors around
+        an exhaustive collector (the original innermost collector may have
+        passed over matching documents).
+        """
+
+        c = self.with_base(UnlimitedCollector())
+        self.top_searcher.search_with_collector(self.q, c)
+        return c.all_ids()
 
     def set_subsearcher(self, subsearcher, offset):
         self.child.set_subsearcher(subsearcher, offset)
@@ -732,7 +783,18 @@ class FilterCollector(WrappingCollector):
         self._restrict = ftc(restrict) if restrict is not None else None
         self.filtered_count = 0
 
+    def rewrap(self, child):
+        return FilterCollector(child, self.allow, self.restrict)
+
     def all_ids(self):
+        if (isinstance(self.child, WrappingCollector)
+            and not self.child.tracks_docset()):
+            # The filter sees the documents before the wrapped collectors do,
+            # so filtering what they report afterwards would be wrong
+            for global_docnum in self.recount_ids():
+                yield global_docnum
+            return
+
         child = self.child
 
         _allow = self._allow
@@ -812,6 +874,9 @@ class FacetCollector(WrappingCollector):
         self.child = child
         self.facets = sorting.Facets.from_groupedby(groupedby)
         self.maptype = maptype
+
+    def rewrap(self, child):
+        return FacetCollector(child, self.facets, maptype=self.maptype)
 
     def prepare(self, top_searcher, q, context):
         facets = self.facets
@@ -949,28 +1014,21 @@ class CollapseCollector(WrappingCollector):
         if self.orderer:
             self.orderer.set_searcher(subsearcher, offset)
 
+    def rewrap(self, child):
+        return CollapseCollector(child, self.keyfacet, limit=self.limit,
+                                 order=self.orderfacet)
+
     def all_ids(self):
         child = self.child
-        limit = self.limit
-        counters = defaultdict(int)
-
-        for subsearcher, offset in child.subsearchers():
-            self.set_subsearcher(subsearcher, offset)
-            matcher = child.matcher
-            keyer = self.keyer
-            for sub_docnum in child.matches():
-                ckey = keyer.key_for(matcher, sub_docnum)
-                if ckey is not None:
-                    if ckey in counters and counters[ckey] >= limit:
-                        continue
-                    else:
-                        counters[ckey] += 1
-                yield offset + sub_docnum
+        if child.tracks_docset():
+            # Collapsed documents were either never passed to the child
+            # collector or removed from it again
+            return child.all_ids()
+        else:
+            return self.recount_ids()
 
     def count(self):
         if self.child.computes_count():
-            # Collapsed documents were either never passed to the child
-            # collector or removed from it again
             return self.child.count()
         else:
             return ilen(self.all_ids())
@@ -1031,6 +1089,8 @@ class CollapseCollector(WrappingCollector):
 
     def results(self):
         r = self.child.results()
+        # len(results) and results.docs() must see the collapsing
+        r.collector = self
         r.collapsed_counts = self.collapsed_counts
         return r
 
@@ -1081,6 +1141,10 @@ class TimeLimitCollector(WrappingCollector):
 
         self.timer = None
         self.timedout = False
+
+    def rewrap(self, child):
+        # A recount is not subject to the time limit
+        return child
 
     def prepare(self, top_searcher, q, context):
         self.child.prepare(top_searcher, q, context)
@@ -1158,6 +1222,9 @@ class TermsCollector(WrappingCollector):
     def __init__(self, child, settype=set):
         self.child = child
         self.settype = settype
+
+    def rewrap(self, child):
+        return TermsCollector(child, settype=self.settype)
 
     def prepare(self, top_searcher, q, context):
         # This collector requires a valid matcher at each step
